@@ -313,6 +313,19 @@ pub fn space(thorough: bool) -> Vec<Prog> {
 pub fn run(tier: &str) -> i32 {
     let mut rep = Report::new("C13", tier);
     let mut progs = space(true);
+    // the push constant's type (and every other built-in type after a `: `) written through an `alias`
+    {
+        let n0 = progs.len();
+        for i in 0..n0 {
+            if tier == "thorough" || hash64(&progs[i].key) % 4 == 2 {
+                if let Some(src) = alias_types(&progs[i].src) {
+                    if naga_check(&src).is_ok() {
+                        progs.push(Prog { key: format!("{}|aliased-types", progs[i].key), src, expect: progs[i].expect, groups: progs[i].groups });
+                    }
+                }
+            }
+        }
+    }
     // module-scope declaration order is not significant: reversed / functions-first variants (every 4th in quick)
     let n0 = progs.len();
     for i in 0..n0 {
